@@ -11,7 +11,7 @@ Outside: singular C_off,off and svd_conditioning > 0 (truncated SVD is LAPACK).
 import sys
 
 from .common import *  # noqa: F401,F403
-from .common import numpy, z3, core, npx, harness, Sym, St, Fr, z, var, symarr, eqs, conj, all_eq
+from .common import numpy, z3, core, npx, harness, Sym, St, Fr, z, var, symarr, eqs, conj, all_eq, same_terms
 from .covcommon import DCut, Unifier, Geometry, apps_in, resolve_bitor, concrete_matrix, model_vals, generic_vals
 
 FILES = ["aotools/turbulence/slopecovariance.py"]
@@ -126,8 +126,7 @@ def case_method(ctx):
     C1, C2 = symm("A", 4), symm("B", 4)
     npx.INV_LOG.clear()
     with npx.symbolic(sc):
-        cm = sc.CovarianceMatrix.__new__(sc.CovarianceMatrix)
-        cm.n_subaps = numpy.array([1, 1])
+        cm = sc.CovarianceMatrix(2, [numpy.ones((1, 1)), numpy.ones((1, 1))], 1.0, [0.5, 0.5], [0, 0], [[0, 0], [1, 1]], [5e-7, 5e-7], 1, [0.0], [0.2], [25.0])
         cm.covariance_matrix = C1
         r1 = numpy.asarray(cm.make_tomographic_reconstructor(), dtype=object)
         d1 = numpy.asarray(sc.create_tomographic_covariance_reconstructor(C1, 1, 0), dtype=object)
@@ -145,6 +144,59 @@ def case_method(ctx):
     ctx.prove("the stored attribute is the last result", pre, all_eq(stored, d2), replay=rp)
 
 
+def case_method_rebuild(ctx, threads):
+    """real object: build, reconstruct, move the on-axis direction, rebuild, reconstruct again with the same
+    conditioning - the second reconstructor must belong to the second matrix"""
+    sc = _sc()
+    masks = [numpy.ones((1, 1))] * 2
+    geo = Geometry(masks, 1)
+    pre = geo.pre() + [z(a.re) > 0 for a in geo.alt if isinstance(a, Sym)]
+    ctx.encoded(sc.CovarianceMatrix.make_covariance_matrix, sc.CovarianceMatrix.make_tomographic_reconstructor)
+    ctx.bounds.update(sensors="2 LGS x 1 sub-aperture", threads=threads, history="build, reconstruct, change gs_positions[0], rebuild, reconstruct")
+    dcut = DCut()
+    gx2, gy2 = var("gx0b"), var("gy0b")
+    npx.INV_LOG.clear()
+
+    def go():
+        with npx.symbolic(sc, extra={sc.__name__: {"structure_function_vk": dcut}}):
+            cm = sc.CovarianceMatrix(*geo.args(threads=threads))
+            cm.make_covariance_matrix()
+            r1 = numpy.asarray(cm.make_tomographic_reconstructor(), dtype=object).copy()
+            cm.gs_positions[0] = [gx2, gy2]
+            M2 = numpy.asarray(cm.make_covariance_matrix(), dtype=object).copy()
+            r2 = numpy.asarray(cm.make_tomographic_reconstructor(), dtype=object).copy()
+            d2 = numpy.asarray(sc.create_tomographic_covariance_reconstructor(M2, 1, 0), dtype=object)
+            return r1, r2, d2
+    paths, ex = core.run_paths(go, pre)
+    ctx.explored(ex, len(paths))
+    rp = lambda m: harness.pristine_call(_replay_method_rebuild, threads)
+    for pi, p in enumerate(paths):
+        if p.exc is not None:
+            ctx.prove("path%d raises %s" % (pi, type(p.exc).__name__), pre + p.pc, z3.BoolVal(False), replay=rp, axioms=False)
+            continue
+        r1, r2, d2 = p.out
+        hyp = pre + p.pc + det_nonzero()
+        # same inverse placeholders are not shared between the two computations: compare through the normal equations
+        same = same_terms(r2, d2)
+        ctx.prove("path%d: reconstructor requested after the rebuild is computed from the rebuilt matrix" % pi, hyp,
+                  z3.BoolVal(True) if same else all_eq(r2, d2), replay=rp, timeout_ms=60000, replay_on_unknown=True)
+
+
+def _replay_method_rebuild(threads):
+    sc = _sc()
+    masks = [numpy.ones((2, 2))] * 2
+    args = (2, masks, 1.0, [0.5, 0.5], [90000, 90000], [[0.0, 0.0], [20.0, 10.0]], [5e-7, 5e-7], 1, [5000.0], [0.15], [25.0])
+    cm = sc.CovarianceMatrix(*args, threads=threads)
+    cm.make_covariance_matrix()
+    cm.make_tomographic_reconstructor()
+    cm.gs_positions[0] = [-15.0, 25.0]
+    M2 = numpy.array(cm.make_covariance_matrix(), dtype=float)
+    r2 = numpy.array(cm.make_tomographic_reconstructor())
+    d2 = numpy.array(sc.create_tomographic_covariance_reconstructor(M2, 4, 0))
+    err = float(numpy.max(numpy.abs(r2 - d2)))
+    return err > 1e-9, dict(what="reconstructor after a rebuild (threads=%d) is not the reconstructor of the rebuilt matrix" % threads, max_abs_diff=err)
+
+
 def _replay_method():
     sc = _sc()
     rng = rng_for("c02m")
@@ -152,8 +204,7 @@ def _replay_method():
     A = A.dot(A.T) + numpy.eye(4) * 3
     B = rand_real(rng, (4, 4))
     B = B.dot(B.T) + numpy.eye(4) * 5
-    cm = sc.CovarianceMatrix.__new__(sc.CovarianceMatrix)
-    cm.n_subaps = numpy.array([1, 1])
+    cm = sc.CovarianceMatrix(2, [numpy.ones((1, 1)), numpy.ones((1, 1))], 1.0, [0.5, 0.5], [0, 0], [[0, 0], [1, 1]], [5e-7, 5e-7], 1, [0.0], [0.2], [25.0])
     cm.covariance_matrix = A
     r1 = cm.make_tomographic_reconstructor()
     cm.covariance_matrix = B
@@ -251,6 +302,8 @@ def build_cases(tier):
     for n_on, n_off in combos:
         cases.append(("normal/n_on=%d/off=%d" % (n_on, n_off), case_normal, dict(n_on=n_on, n_off_slopes=n_off)))
     cases.append(("method", case_method, {}))
+    cases.append(("method-after-rebuild/threads=1", case_method_rebuild, dict(threads=1)))
+    cases.append(("method-after-rebuild/threads=2", case_method_rebuild, dict(threads=2)))
     cases.append(("end-to-end/duplicate/3 sensors x 1 subap", case_end_to_end, dict(dup_first=True)))
     cases.append(("end-to-end/duplicate/2 sensors x row mask", case_end_to_end, dict(dup_first=True, mask=((1, 1),), third=False)))
     if tier == "thorough":
